@@ -575,3 +575,18 @@ def c_discriminant_value(eng, st, fr, f, args, site):
 
 
 from engine import contracts_coll  # noqa: E402,F401
+
+
+@contract(r"^<(u8|u16|u32|u64|u128|usize|i8|i16|i32|i64|i128|isize|bool) as (std|core)::default::Default>::default$|^(std|core)::default::impls::<impl (std|core)::default::Default for (u8|u16|u32|u64|u128|usize|i8|i16|i32|i64|i128|isize|bool)>::default$")
+def c_default_prim(eng, st, fr, f, args, site):
+    """Default of a primitive: 0 / false."""
+    rt = ret_ty(eng, site)
+    if rt is None:
+        return None
+    t = eng.T.t(rt)
+    if t["k"] == "bool":
+        return [(st, FALSE)]
+    ii = eng.T.int_info(rt)
+    if ii:
+        return [(st, int_const(0, ii[0], ii[1]))]
+    return None
